@@ -3375,8 +3375,12 @@ func (r *Resolver) checkPriming() {
 				serverName := strings.ToLower(v6.Header().Name)
 				if nsServers[serverName] {
 					foundServers[serverName] = true
-					if addr, valid := netip.AddrFromSlice(v6.AAAA); valid {
-						endpoint := netip.AddrPortFrom(addr.Unmap(), 53)
+					// The same filter referral glue and resolved name-server
+					// addresses go through: a priming response is an
+					// upstream message like any other, and an address of
+					// this host is not a root server.
+					if addr, valid := usableAddr(v6.AAAA); valid {
+						endpoint := netip.AddrPortFrom(addr, 53)
 						if _, ok := seenEndpoints[endpoint]; !ok {
 							seenEndpoints[endpoint] = struct{}{}
 							tmpservers.List = append(tmpservers.List, authority.NewServerFromAddrPort(endpoint))
@@ -3393,8 +3397,8 @@ func (r *Resolver) checkPriming() {
 			serverName := strings.ToLower(v4.Header().Name)
 			if nsServers[serverName] {
 				foundServers[serverName] = true
-				if addr, valid := netip.AddrFromSlice(v4.A); valid {
-					endpoint := netip.AddrPortFrom(addr.Unmap(), 53)
+				if addr, valid := usableAddr(v4.A); valid {
+					endpoint := netip.AddrPortFrom(addr, 53)
 					if _, ok := seenEndpoints[endpoint]; !ok {
 						seenEndpoints[endpoint] = struct{}{}
 						tmpservers.List = append(tmpservers.List, authority.NewServerFromAddrPort(endpoint))
